@@ -139,6 +139,10 @@ class NPFacade:
 
     @staticmethod
     def _keep(a, dtype):
+        if dtype is symx.sfloat:
+            dtype = float
+        if dtype is symx.sint:
+            dtype = int
         if dtype in (float, int, np.float64, np.int64, 'float', 'int') and symx.has_sym(
                 a if isinstance(a, (np.ndarray, list, tuple, SymReal, SymBool)) else []):
             return True
@@ -147,16 +151,18 @@ class NPFacade:
     def asarray(self, a, dtype=None, **kw):
         if self._keep(a, dtype):
             return np.asarray(a, dtype=object).view(symx.SymArray)
+        dtype = float if dtype is symx.sfloat else (int if dtype is symx.sint else dtype)
         return np.asarray(a, dtype=dtype, **kw)
 
     def array(self, a, dtype=None, **kw):
         if self._keep(a, dtype):
             out = np.array(a, dtype=object)
-            if dtype in (int, np.int64, 'int'):
+            if dtype in (int, np.int64, 'int', symx.sint):
                 flat = out.reshape(-1)
                 for k in range(flat.size):
                     flat[k] = to_bit(flat[k])
             return out.view(symx.SymArray)
+        dtype = float if dtype is symx.sfloat else (int if dtype is symx.sint else dtype)
         return np.array(a, dtype=dtype, **kw)
 
     def atleast_1d(self, a):
@@ -228,7 +234,7 @@ def _conc_grid(module, fname, args):
         frac = I.call(fname, args)
     except KernelRaise as e:
         raise NotImplementedError(str(e))
-    return np.array(frac, dtype=float)
+    return np.array(frac, dtype=float).reshape(int(args[5]), int(args[4]))
 
 
 def conc_circular_overlap_grid(xmin, xmax, ymin, ymax, nx, ny, r, use_exact, subpixels):
